@@ -78,6 +78,8 @@ pub enum Fault {
     LocalUdpMalformed,
     AppUdpTargetUnresolvable,
     AppUdpTargetRefused,
+    UdpOversizeReply,
+    UdpOversizeRequest,
     // --- the link between client and server
     LinkCutMidFlow,
     LinkResetMidFlow,
@@ -87,7 +89,7 @@ pub enum Fault {
     ServerRestart,
 }
 
-pub const ALL_FAULTS: [Fault; 36] = [
+pub const ALL_FAULTS: [Fault; 38] = [
     Fault::SrvConnectClose,
     Fault::SrvSilentHeld,
     Fault::SrvGarbageClose,
@@ -118,6 +120,8 @@ pub const ALL_FAULTS: [Fault; 36] = [
     Fault::LocalUdpMalformed,
     Fault::AppUdpTargetUnresolvable,
     Fault::AppUdpTargetRefused,
+    Fault::UdpOversizeReply,
+    Fault::UdpOversizeRequest,
     Fault::LinkCutMidFlow,
     Fault::LinkResetMidFlow,
     Fault::LinkDownWhileUdpBinding,
@@ -146,7 +150,7 @@ impl Fault {
             SsUdpGarbage => ss && e.d.udp,
             SsUdpReplayRecorded | SsUdpDuplicatedByPath | SsUdpReplyReplayToClient | SsUdpGarbageToClient => ss && e.d.udp && e.udpfwd.is_some(),
             AppTargetUnresolvable | AppTargetRefused | AppResetMidTransfer | TargetResetMidTransfer | LocalHandshakeStalledHeld | LocalGarbage | LocalConnectClose | LocalDescriptorExhaustion => true,
-            LocalUdpMalformed | AppUdpTargetUnresolvable | AppUdpTargetRefused => e.d.udp,
+            LocalUdpMalformed | AppUdpTargetUnresolvable | AppUdpTargetRefused | UdpOversizeReply | UdpOversizeRequest => e.d.udp,
             LinkCutMidFlow | LinkResetMidFlow | LinkStalledTcpFlows => e.chopper.is_some(),
             LinkDownWhileUdpBinding | LinkStalledWhileUdpBinding => e.chopper.is_some() && e.d.udp && !ss,
             ServerRestart => true,
@@ -707,6 +711,41 @@ async fn apply(f: Fault, e: &mut Env, rng: &mut Rng, rep: &mut Report) -> Held {
                     let d = if f == AppUdpTargetUnresolvable { socks5_udp("no-such-host.invalid", 53, &p) } else { socks5_udp("127.0.0.1", dead, &p) };
                     let _ = s.send_to(&d, ("127.0.0.1", cp)).await;
                     tokio::time::sleep(Duration::from_millis(60)).await;
+                }
+                hold(&mut h, s);
+            }
+        }
+        UdpOversizeReply => {
+            // a target answers with the largest datagram UDP can carry: wrapped by the relay it no longer fits
+            if let (Ok(bloat), Ok(s)) = (UdpSocket::bind("127.0.0.1:0").await, UdpSocket::bind("127.0.0.1:0").await) {
+                let bport = bloat.local_addr().map(|a| a.port()).unwrap_or(0);
+                let t = tokio::spawn(async move {
+                    let mut buf = vec![0u8; 70000];
+                    let big = vec![0xA5u8; 65507];
+                    let mut k = 0usize;
+                    while let Ok((_, from)) = bloat.recv_from(&mut buf).await {
+                        let n = [65507usize, 65500, 65480, 65470][k % 4];
+                        k += 1;
+                        let _ = bloat.send_to(&big[..n], from).await;
+                    }
+                });
+                for seq in 0..4u32 {
+                    let p = make_payload(e.nonce, 60002, 0, seq, 64, 0);
+                    let _ = s.send_to(&socks5_udp("127.0.0.1", bport, &p), ("127.0.0.1", cp)).await;
+                    tokio::time::sleep(Duration::from_millis(80)).await;
+                }
+                tokio::time::sleep(Duration::from_millis(200)).await;
+                hold(&mut h, AbortOnDrop(t));
+                hold(&mut h, s);
+            }
+        }
+        UdpOversizeRequest => {
+            // the application sends the largest datagrams it can: wrapped by the client they no longer fit
+            if let (Ok(s), Some(tport)) = (UdpSocket::bind("127.0.0.1:0").await, e.udp_target.as_ref().map(|t| t.port)) {
+                for (seq, size) in [65497usize, 65490, 65470, 65450].iter().enumerate() {
+                    let p = make_payload(e.nonce, 60003, 0, seq as u32, *size, 0);
+                    let _ = s.send_to(&socks5_udp("127.0.0.1", tport, &p), ("127.0.0.1", cp)).await;
+                    tokio::time::sleep(Duration::from_millis(80)).await;
                 }
                 hold(&mut h, s);
             }
